@@ -948,7 +948,7 @@ func main() {
 	nE, nS, nP, nIP := 2000, 400, 1500, 1500
 	poolScripts, poolG, poolPer := 6, 16, 40
 	if *tier == "thorough" {
-		nE, nS, nP, nIP = 30000, 4000, 15000, 15000
+		nE, nS, nP, nIP = 20000, 3000, 10000, 10000
 		poolScripts, poolG, poolPer = 40, 64, 100
 	}
 	if *only == "pool" {
